@@ -847,8 +847,14 @@ func writeEvidence(prop, tier string, seed uint64, meta PropMeta, a *aggregate, 
 		"violations":  nviol,
 	}
 	b, _ := json.MarshalIndent(ev, "", " ")
-	os.MkdirAll(filepath.Join(verifRoot, "evidence"), 0755)
-	os.WriteFile(filepath.Join(verifRoot, "evidence", prop+".json"), append(b, '\n'), 0644)
+	dir := filepath.Join(verifRoot, "evidence")
+	if alt := os.Getenv("VERIF_REPO"); alt != "" && alt != "/repo" {
+		// a run against another checkout (a seeded change in a scratch worktree)
+		// says nothing about /repo: its evidence goes elsewhere
+		dir = filepath.Join(verifRoot, ".build", "evidence-alt")
+	}
+	os.MkdirAll(dir, 0755)
+	os.WriteFile(filepath.Join(dir, prop+".json"), append(b, '\n'), 0644)
 }
 
 // ---- replay files and minimisation --------------------------------------------------
